@@ -22,7 +22,8 @@ LEVEL_TEXT = ('All rooted ordered section trees with up to 3 (quick) / 4 (thorou
               'definitions and references; every sequence up to 3 / 4 of EQU/SET/label/=/:= definitions; every PUSHV/POPV sequence up to 4 / 5 over '
               'two named stacks and the default stack; case variants with and without -U. Each resolved value is read from the code file.'
               ' Symbols defined with -D are looked up with -U given before and after them.'
-              ' Added in the last round: scope-opening definitions written as EQU/SET/=; body-local labels against section symbols of the same name at depths 0..3.')
+              ' Added in the last round: scope-opening definitions written as EQU/SET/=; body-local labels against section symbols of the same name at depths 0..3.'
+              ' Three named stacks (every push/pop sequence) and four (every order of filling and emptying) are alive at once.')
 LEVEL_NOTE = ('Trusted: resolver model written from the manual. Out of domain (crash oracle only): backward nameless reference without a '
               'definition, dotted temporaries before any ordinary label, stacks left non-empty at the end of a pass.')
 RULE = 'see LEVEL_TEXT; non-trivial = program contains at least one reference whose value was compared or one expected error'
